@@ -856,6 +856,19 @@ class Parse(Op):
                     yield build_case(rng, doc, "greg", cfg, dd, tform, zform)
                 else:
                     yield build_case(rng, doc, rng.choice(oracle.MODES), cfg, dform, None, None)
+        # 2b. order of use on ONE parser: a date-only text of one form directly followed by a date-only text of
+        #     another form under the same configuration (the forms that share strings - signed reduced forms and
+        #     truncated forms starting with '-' - in both orders): decoding must not depend on what was parsed before
+        signed = [d for d in dates if d[1] in ("reduced", "complete") and d[2].startswith("+")]
+        dashed = [d for d in dates if d[1] == "truncated" and d[2].startswith("-")]
+        pairs = [(a, b) for a in signed for b in dashed]
+        for k, (a, b) in enumerate(gens.shard_filter(pairs, self.shard)):
+            for ned in (2, 3):
+                cfg = (ned, rng.random() < 0.3, True, rng.choice(CFG_ZONES))
+                first, second = (a, b) if rng.random() < 0.5 else (b, a)
+                yield build_case(rng, doc, "greg", cfg, first, None, None)
+                yield build_case(rng, doc, "greg", cfg, second, None, None)
+                yield build_case(rng, doc, "greg", cfg, first, None, None)
         # 3. single-field sweeps: every month/day, day of year, week/weekday, hour/minute/second, offsets,
         #    decimals of 1-9 digits with comma and point, years that are multiples of 400 with either sign
         for case in self.sweeps(rng, doc, quick):
